@@ -30,6 +30,9 @@ var c10Sets = [][]mockq.KV{
 	// names that differ in letter case only are different names
 	{{K: "A", V: "b"}, {K: "a", V: "c"}},
 	{{K: "a", V: "b"}, {K: "A", V: "c"}},
+	// one label each, other names, the same values as sets above
+	{{K: "c", V: "b"}},
+	{{K: "ab", V: "bc"}},
 }
 
 type c10Input struct {
